@@ -399,7 +399,8 @@ pub fn sequence_oracle(srv: &Server, cfg: &ClientCfg, expect_shutdown: bool, exp
         ClientMsg::ConnectionRequest { flags, protocols, has_neg } => {
             if !*has_neg { fail!("connection-request/no-negotiation", "no RDP_NEG_REQ in the connection request"); }
             let want = 1 | if cfg.nla { 2 } else { 0 };
-            if *protocols != want { fail!("connection-request/protocols", "requested protocols {:#x}, configuration implies {:#x}", protocols, want); }
+            // offering more (HYBRID_EX next to HYBRID) is the client's choice; offering less than configured is not
+            if *protocols & want != want { fail!("connection-request/protocols", "requested protocols {:#x}, configuration implies {:#x}", protocols, want); }
             if (*flags & 1 != 0) != cfg.restricted { fail!("connection-request/restricted-flag", "RESTRICTED_ADMIN_MODE_REQUIRED={} but configured {}", flags & 1, cfg.restricted); }
         }
         other => fail!("order/connection-request", "first message is {}", other.name()),
@@ -498,6 +499,7 @@ pub fn sequence_oracle(srv: &Server, cfg: &ClientCfg, expect_shutdown: bool, exp
                 if act != expected_activations { fail!("count/activations", "{} activations completed, {} demand-actives were sent", act, expected_activations); }
                 return None;
             }
+            ClientMsg::Share { pdu: SharePdu::Data { pdu, .. }, .. } if pdu.is_unrelated_legal() => { i += 1; }
             other => fail!("order/unexpected", "unexpected {} after the connection sequence (history: {})", other.name(), history_names(srv)),
         }
     }
@@ -557,6 +559,12 @@ pub fn establish(env: &mut crate::scen::Env, prefix: &str, auto_activate: bool) 
             return Err(Outcome::Pass);
         }
         return Err(viol(&format!("{}/session-not-established", prefix), "connect", format!("connect failed: {}", k)));
+    }
+    if !auto_activate {
+        // how much of the server's setup messages connect() itself consumes is the library's business
+        if let Err(k) = s.drain(8)? {
+            return Err(viol(&format!("{}/session-not-established", prefix), "after-connect", format!("reading what connect left unread failed: {}", k)));
+        }
     }
     if auto_activate {
         match s.activate(40)? {
